@@ -3,17 +3,20 @@
 Three layers (DESIGN.md 4/C09, design_notes/C09.md):
 
   * table    `harness/extract_tables.py` regenerates `lean/Generated/Tables.lean` from the LIVE classes before the
-             build; `Props/C09.lean` proves C09_factory_exact / C09_cls_triples / C09_ctor_compatible over it by `decide`.
+             build; `Props/C09Tables.lean` (built by this check only) proves C09_factory_exact / C09_cls_triples /
+             C09_ctor_compatible over it by `decide`.
              `table_failures` states the same predicates in Python on the live classes: when the Lean obligations no
              longer build, it names the offending tuple / class (→ VIOLATION with that tuple as replay).
   * model    C09_graph_noninterference / C09_markup_noninterference / C09_side_table_write_only (side-table engine),
-             C09_locked_single_thread, C09_async_flat, C09_async_graph_flat — unbounded Lean theorems.
+             C09_locked_single_thread, C09_async_flat, C09_async_graph_flat, C09_hsm_flat_partial /
+             C09_hsm_flat_counterexample (depth-1 collapse of NestedTransition._change_state) — unbounded Lean theorems.
   * code     differential, the property's monitor: the C01 / C04 / C05 (+ membership) generators run on `Machine` and on
              the other 11 classes — reached by name AND through `MachineFactory.get_predefined` — and the runs are
              compared: model states, truth value of every result, exception types, callback sequences with
              arguments and the state each callback saw (async classes: up to `aflat.obs`, the difference C07
-             licenses).  Correspondence: the Lean flat engine equals the `Machine` run (and the Lean async engine
-             the `AsyncMachine` run on trigger-only Solo cases), which is what ties the theorems to these inputs.
+             licenses).  Correspondence: the Lean flat engine equals the `Machine` run, the Lean depth-1 hierarchical
+             engine the `HierarchicalMachine` run and the Lean async engine the `AsyncMachine` run (trigger-only Solo
+             cases), which is what ties the theorems to these inputs.
 """
 import asyncio
 import copy
